@@ -218,7 +218,7 @@ func TestC20Replay(t *testing.T) { vstat.Replay(t, specC20) }
 // ---- C22 ----
 
 func genC22(t *rapid.T) srvCase {
-	ops := genSops(t, []string{"attach", "attach", "attach", "detach", "detach", "send", "ack", "gate", "release"}, 2, 3, 12)
+	ops := genSops(t, []string{"attach", "attach", "attach", "detach", "detach", "send", "ack", "gate", "release", "listen", "unlisten"}, 2, 3, 12)
 	for i := range ops {
 		if ops[i].Op == "send" {
 			// honest senders; some still stamp the previous epoch (they have not processed the latest announcement)
@@ -243,6 +243,11 @@ func genC22(t *rapid.T) srvCase {
 			{Op: "attach", P: p, Q: q}, {Op: "release", P: q, Q: p}}
 		at := rapid.IntRange(0, len(ops)).Draw(t, "at")
 		ops = append(append(append([]sop{}, ops[:at]...), pat...), ops[at:]...)
+	}
+	if rapid.IntRange(0, 3).Draw(t, "listenpat") == 0 {
+		// a peer that also listens for callers attaches alone, stops listening, and only then its partner attaches
+		p := rapid.IntRange(0, 1).Draw(t, "lp")
+		ops = append([]sop{{Op: "listen", P: p, Q: 1 - p}, {Op: "attach", P: p, Q: 1 - p}, {Op: "unlisten", P: p, Q: 1 - p}, {Op: "attach", P: 1 - p, Q: p}, {Op: "send", P: p, Q: 1 - p, Kind: "honest", Epoch: "current"}}, ops...)
 	}
 	return srvCase{Ops: ops}
 }
